@@ -140,7 +140,14 @@ var purePkgs = map[string]bool{"strings": true, "strconv": true, "unicode": true
 	"path": true, "path/filepath": true, "html": true, "time": true, "log": true, "fmt": true, "os": true, "io": true, "io/ioutil": true, "bytes": true}
 
 func defaultPureExtern(fn *ssa.Function) bool {
-	if fn == nil || fn.Pkg == nil || fn.Signature.Recv() != nil {
+	if fn == nil || fn.Pkg == nil {
+		return false
+	}
+	if rv := fn.Signature.Recv(); rv != nil {
+		// methods of time.Time and time.Duration values (UTC, Format, Unix, Add, Sub, String, ...): value receivers, no heap effect
+		if n, ok := rv.Type().(*types.Named); ok && n.Obj().Pkg() != nil && n.Obj().Pkg().Path() == "time" && (n.Obj().Name() == "Time" || n.Obj().Name() == "Duration") {
+			return true
+		}
 		return false
 	}
 	pth := fn.Pkg.Pkg.Path()
